@@ -147,7 +147,7 @@ pub fn schedules(rep: &mut CaseReport, source: &Path, opts: &BuildOpts, seeds: &
 
 fn profile() -> Profile {
     Profile { min_axes: 0, max_axes: 2, max_glyphs: 16, min_glyphs: 3, outlines: true, cubic: false, components: 7, transforms: true, mixed: true, sparse: 2,
-        order_variety: true, non_export: true, metrics_class_a: false, vertical: true, half_coords: false, maps: false, awkward_axes: false, multi_codepoints: false, ps_names: false, anchors: true, kerning: true, instances: false, flat_maps: false, point_axis: false, weird_names: false }
+        order_variety: true, non_export: true, metrics_class_a: false, vertical: true, half_coords: false, maps: false, awkward_axes: false, multi_codepoints: false, ps_names: false, anchors: true, kerning: true, instances: false, flat_maps: false, point_axis: false, weird_names: false, ..Profile::base() }
 }
 
 fn seeds_for(g: &mut Gen, n: usize) -> Vec<(u64, usize)> {
